@@ -358,6 +358,14 @@ func verifyOnce(vec J) J {
 		}
 		obs["size_ok"] = e.Size == int64(len(content))
 		v, err := e.Verifier()
+		if reuse, _ := vec["reuse_var"].(bool); reuse {
+			// the variable the verifier was taken from now holds ANOTHER entry (a loop that walks the entries with one
+			// variable and keeps the verifiers): the verifier stands for the hash recorded when it was made
+			other := e
+			other.Hash = strings.Repeat("00", len(e.Hash)/2)
+			other.Filename = "other_2.0.tar.gz"
+			e = other
+		}
 		if err == nil && v != nil {
 			obs["new_ok"] = true
 			pos := 0
